@@ -80,6 +80,7 @@ class C06(Prop):
                 g.nested = 0.7  # nests of rotation candidates: inner head setups read values of the enclosing loop bodies
                 g.accs = g.accs[:1] if rng.random() < 0.7 else g.accs
                 g.scope_accs = [g.accs]
+            g.before = i % 7 == 5  # another function in front of @f: every function is transformed as if it were alone
             if i % 4 == 3:
                 g.ifinput = 0.3  # a conditional computing from a region-local and an outer value is itself a setup input
             yield {"kind": "overlap", "src": g.program(), "xseed": rng.getrandbits(32)}
